@@ -129,17 +129,23 @@ def severity_filter(src):
         body = " ".join(m[0].split())
         a = re.fullmatch(r"return r\.severity\(\)\s*" + OPRE + r"\s*min_severity\(\)\s*;", body)
         b = re.fullmatch(r"return min_severity\(\)\s*" + OPRE + r"\s*r\.severity\(\)\s*;", body)
-        g = re.findall(r"static\s+severity_level\s+min_severity\s*\(\s*\)\s*\{\s*return\s+sev\s*;\s*\}", src)
-        s = re.findall(r"static\s+void\s+set_severity\s*\(\s*severity_level\s+(\w+)\s*\)\s*\{\s*sev\s*=\s*(\w+)\s*;\s*\}", src)
-        if len(g) == 1 and len(s) == 1 and s[0][0] == s[0][1]:
-            if a:
-                op = OPS[a.group(1)]
-            elif b:
-                op = OPS[FLIP[b.group(1)]]
+        if a:
+            op = OPS[a.group(1)]
+        elif b:
+            op = OPS[FLIP[b.group(1)]]
+    g = re.findall(r"static\s+severity_level\s+min_severity\s*\(\s*\)\s*\{\s*return\s+sev\s*;\s*\}", src)
+    s = re.findall(r"static\s+void\s+set_severity\s*\(\s*severity_level\s+(\w+)\s*\)\s*\{\s*sev\s*=\s*(\w+)\s*;\s*\}", src)
+    accessors_ok = len(g) == 1 and len(s) == 1 and s[0][0] == s[0][1]
     i = re.findall(r"severity_level\s+severity_filter\s*<\s*Record\s*,\s*N\s*>::sev\s*=\s*severity_level::(\w+)\s*;", src)
     if len(i) == 1:
         init = i[0]
-    return op, init
+    # where the threshold lives: a static data member `sev` of the class template over (Record, N), defined once out of class
+    storage = "?"
+    decl = re.findall(r"template\s*<\s*typename\s+Record\s*,\s*unsigned\s+N\s*=\s*0\s*>\s*class\s+severity_filter\s*\{(.*?)\n\s*\};", src, flags=re.S)
+    defn = re.findall(r"template\s*<\s*typename\s+Record\s*,\s*unsigned\s+N\s*>\s*severity_level\s+severity_filter\s*<\s*Record\s*,\s*N\s*>::sev\s*=", src)
+    if len(decl) == 1 and len(defn) == 1 and len(re.findall(r"static\s+severity_level\s+sev\s*;", decl[0])) == 1 and accessors_ok:
+        storage = "static member of severity_filter<Record, N>"
+    return op, init, storage
 
 
 def logger_functions(src):
@@ -173,9 +179,9 @@ def generate(repo):
     except OSError:
         gop, gt, gf = "GCmpUnknown", "?", "?"
     try:
-        fop, finit = severity_filter(read(repo, os.path.join("filter", "severity_filter.hpp")))
+        fop, finit, fstore = severity_filter(read(repo, os.path.join("filter", "severity_filter.hpp")))
     except OSError:
-        fop, finit = "GCmpUnknown", "?"
+        fop, finit, fstore = "GCmpUnknown", "?", "?"
     try:
         lf = logger_functions(read(repo, "logger.hpp"))
     except OSError:
@@ -199,9 +205,11 @@ Definition gen_gate_false_stream : string := %s.
 (* include/nitro/log/filter/severity_filter.hpp filter():  r.severity() <op> min_severity() *)
 Definition gen_filter_op : gen_cmp := %s.
 Definition gen_filter_initial : string := %s.
+(* where severity_filter keeps its threshold ("?" when it is not a static data member of the class template over (Record, N)) *)
+Definition gen_filter_storage : string := %s.
 (* include/nitro/log/logger.hpp: (static member function, severity it instantiates) *)
 Definition gen_logger_functions : list (string * string) := [%s].
-""" % ("; ".join(notes), enum, gop, coq_str(gt), coq_str(gf), fop, coq_str(finit),
+""" % ("; ".join(notes), enum, gop, coq_str(gt), coq_str(gf), fop, coq_str(finit), coq_str(fstore),
        "; ".join("(%s, %s)" % (coq_str(a), coq_str(b)) for a, b in lf))
     return [("GenSeverity.v", text)]
 
